@@ -61,7 +61,45 @@ def run_driver(ctx, cases, timeout=5, chunk=None, tag="job"):
     out = {}
     for res in run.pmap(one, list(enumerate(slices))):
         out.update(res)
+    # a time-limit verdict counts only if it repeats
+    slow = [c for c in cases if any(died(v) and v["died"] in HANG for v in out[str(c["id"])]["r"])]
+    if slow and tag != "again":
+        again = run_driver(ctx, slow, timeout=timeout, chunk=max(1, len(slow) // NCPU + 1), tag="again")
+        for c in slow:
+            if not any(died(v) and v["died"] in HANG for v in again[str(c["id"])]["r"]):
+                out[str(c["id"])] = again[str(c["id"])]
     return out
+
+
+HANG = (14, 24)     # SIGALRM, SIGXCPU
+
+
+def make_real(ctx):
+    """databases written by interrogate itself: the shipped interrogatedb test headers and harness/idb_hdrs,
+    each once with -od only (index numbers as allocated) and once with -oc (remapped, canonical)."""
+    work = os.path.join(ctx.tmp, "real")
+    os.makedirs(work)
+    hdrs = []
+    for d in (os.path.join(REPO, "tests", "interrogatedb"), os.path.join(HARNESS, "idb_hdrs")):
+        for f in sorted(os.listdir(d)):
+            if f.endswith(".h"):
+                hdrs.append(os.path.join(d, f))
+    pinc = os.path.join(REPO, "parser-inc")
+    items = [(h, c) for h in hdrs for c in (False, True)]
+
+    def one(it):
+        h, canon = it
+        name = os.path.basename(h)[:-2] + ("_c" if canon else "")
+        args = ["-od", name + ".in", "-module", "m", "-library", "lib" + name, "-S" + pinc]
+        if canon:
+            args += ["-oc", name + ".cxx", "-c", "-fnames"]
+        r = run.run_tool("interrogate", args + [h], cwd=work, timeout=120, env={"SOURCE_DATE_EPOCH": "1700000000"},
+                         outputs=[name + ".in"])
+        p = os.path.join(work, name + ".in")
+        if r.rc != 0 or not os.path.exists(p):
+            raise MachineryError("interrogate -od failed on %s: rc %s %s" % (h, r.rc, r.stderr[-800:]))
+        return dict(name=name, path=p, canon=canon, bytes=open(p, "rb").read())
+    return run.pmap(one, items)
 
 
 def died(v):
@@ -70,8 +108,8 @@ def died(v):
 
 def describe_death(v):
     d = v["died"]
-    if d == 14:
-        return "hang (killed by the time limit)"
+    if d in HANG:
+        return "hang (killed by the %s time limit)" % ("CPU" if d == 24 else "wall-clock")
     if d > 0:
         return "killed by signal %d%s" % (d, " (abort: uncaught exception / assertion)" if d == 6 else
                                           " (segmentation fault)" if d == 11 else "")
@@ -213,6 +251,8 @@ def diff_dump(exp, got, limit=6):
     out = []
     for fn in sorted(exp):
         e, g = exp[fn], got.get(fn, "<missing>")
+        if e == g:
+            continue
         if isinstance(e, list):
             if not isinstance(g, list) or len(g) != len(e):
                 out.append((fn, None, None, e, g))
